@@ -1860,7 +1860,7 @@ func TestGocvReplay(t *testing.T) {
 }
 `}
 	// interval range (C03): what the binary writer does with durations around the 32-bit limit
-	replayers["scenario:C03-interval"] = &Replayer{PkgDir: "ttlv", Oracle: "whole-second durations 0, 1 s, 2^31 s, 2^32-1 s, 2^32 s, 2^32+1 s, 200 years and the largest Duration handed to the binary writer: either the call is refused (panic) or the item written is a well-formed Interval whose 32-bit value is the number of seconds handed in",
+	replayers["scenario:C03-interval"] = &Replayer{PkgDir: "ttlv", Oracle: "whole-second durations 0, 1 s, 2^31 s, 2^32-1 s, 2^32 s, 2^32+1 s, 200 years, the largest Duration, and 2^32-1 s and 7 s plus 999999999 ns handed to the binary writer: either the call is refused (panic) or the item written is a well-formed Interval whose 32-bit value is the number of seconds handed in",
 		Template: `package ttlv
 
 import (
@@ -1870,8 +1870,12 @@ import (
 )
 
 func TestGocvReplay(t *testing.T) {
-	for _, secs := range []int64{0, 1, 1 << 31, 1<<32 - 1, 1 << 32, 1<<32 + 1, 200 * 365 * 24 * 3600, int64(1<<63-1) / int64(time.Second)} {
+	for i, secs := range []int64{0, 1, 1 << 31, 1<<32 - 1, 1 << 32, 1<<32 + 1, 200 * 365 * 24 * 3600, int64(1<<63-1) / int64(time.Second), 1<<32 - 1, 7} {
 		d := time.Duration(secs) * time.Second
+		if i >= 8 {
+			// not a whole number of seconds: the item carries the whole seconds
+			d += 999999999 * time.Nanosecond
+		}
 		var out []byte
 		refused := false
 		func() {
@@ -1897,6 +1901,118 @@ func TestGocvReplay(t *testing.T) {
 }
 `}
 	replayers["(*ttlv.ttlvWriter).Interval"] = replayers["scenario:C03-interval"]
+	// a call racing with the end of the connection (C11, stress witness: schedule dependent, bounded in time)
+	replayers["scenario:C11-sendrace"] = &Replayer{PkgDir: "kmipclient", Oracle: "3 s of calls on a client whose scripted connections are closed by the peer 0 to 30 microseconds after being dialled: every call returns (a response or an error), none panics (schedule dependent: a stress witness, not an exhaustive exploration)",
+		Template: `package kmipclient_test
+
+import (
+	"context"
+	"math/rand"
+	"net"
+	"testing"
+	"time"
+
+	"github.com/ovh/kmip-go"
+	"github.com/ovh/kmip-go/kmipclient"
+	"github.com/ovh/kmip-go/payloads"
+)
+
+func TestGocvReplay(t *testing.T) {
+	rng := rand.New(rand.NewSource(7))
+	dialer := func(ctx context.Context) (net.Conn, error) {
+		cli, srv := net.Pipe()
+		d := time.Duration(rng.Intn(30)) * time.Microsecond
+		go func() {
+			deadline := time.Now().Add(d)
+			for time.Now().Before(deadline) {
+			}
+			srv.Close()
+		}()
+		return cli, nil
+	}
+	client, err := kmipclient.Dial("scripted", kmipclient.WithDialerUnsafe(dialer), kmipclient.EnforceVersion(kmip.V1_4))
+	if err != nil {
+		t.Fatal(err)
+	}
+	defer client.Close()
+	end := time.Now().Add(3 * time.Second)
+	for n := 0; time.Now().Before(end); n++ {
+		func() {
+			defer func() {
+				if p := recover(); p != nil {
+					t.Fatalf("GOCV-REPRODUCED: {{.Obligation}}: call %d on a connection that the peer closes while the call starts panicked: %v", n, p)
+				}
+			}()
+			ctx, cancel := context.WithTimeout(context.Background(), time.Second)
+			defer cancel()
+			_, _ = client.Request(ctx, &payloads.ActivateRequestPayload{UniqueIdentifier: "x"})
+		}()
+	}
+}
+`}
+	// a response the encoder refuses (C08): the write loop must not let the panic end the process
+	replayers["scenario:C08-unencodable"] = &Replayer{PkgDir: "kmipserver", Oracle: "the write loop of a server connection is handed a response whose payload the encoder refuses (Obtain Lease with a negative lease time; an interval above 2^32 s): it reports an error to the sender and returns, it does not panic (run synchronously so that a panic is observed instead of ending the test process)",
+		Template: `package kmipserver
+
+import (
+	"context"
+	"log/slog"
+	"net"
+	"testing"
+	"time"
+
+	"github.com/ovh/kmip-go"
+	"github.com/ovh/kmip-go/payloads"
+	"github.com/ovh/kmip-go/ttlv"
+)
+
+func TestGocvReplay(t *testing.T) {
+	for _, lease := range []time.Duration{-time.Second, time.Duration(1<<33) * time.Second} {
+		a, b := net.Pipe()
+		go func() {
+			buf := make([]byte, 4096)
+			for {
+				if _, err := b.Read(buf); err != nil {
+					return
+				}
+			}
+		}()
+		ctx, cancel := context.WithCancelCause(context.Background())
+		c := &conn{stream: ttlv.NewStream(a, -1), rx: make(chan rxMsg), ctx: ctx, cancel: cancel, logger: slog.Default()}
+		tx := make(chan txMsg)
+		c.tx.Store(tx)
+		errCh := make(chan error, 1)
+		resp := &kmip.ResponseMessage{Header: kmip.ResponseHeader{ProtocolVersion: kmip.V1_4, BatchCount: 1}, BatchItem: []kmip.ResponseBatchItem{ {Operation: kmip.OperationObtainLease,
+			ResponsePayload: &payloads.ObtainLeaseResponsePayload{UniqueIdentifier: "x", LeaseTime: lease}} }}
+		go func() { tx <- txMsg{msg: resp, err: errCh} }()
+		done := make(chan any, 1)
+		go func() {
+			defer func() { done <- recover() }()
+			c.writeloop()
+		}()
+		select {
+		case p := <-done:
+			if p != nil {
+				t.Fatalf("GOCV-REPRODUCED: {{.Obligation}}: the write loop panics on a response with a lease time of %v: %v (in the server this goroutine has no recover: the process ends)", lease, p)
+			}
+		case <-time.After(3 * time.Second):
+			t.Fatalf("GOCV-REPRODUCED: {{.Obligation}}: the write loop neither failed nor returned within 3 s for a lease time of %v", lease)
+		}
+		select {
+		case err := <-errCh:
+			if err == nil {
+				t.Fatalf("GOCV-REPRODUCED: {{.Obligation}}: a response with a lease time of %v was reported as sent", lease)
+			}
+		case <-time.After(time.Second):
+			t.Fatalf("GOCV-REPRODUCED: {{.Obligation}}: the sender was not told that the response with a lease time of %v could not be written", lease)
+		}
+		cancel(nil)
+		a.Close()
+		b.Close()
+	}
+}
+`}
+	replayers["(*kmipserver.conn).writeloop"] = replayers["scenario:C08-unencodable"]
 	// abandoned exchange (C11): the writer goroutine must end when the caller has given up
 	replayers["scenario:C11-writeloop"] = &Replayer{PkgDir: "kmipclient", Oracle: "a request is handed to the writer goroutine over a pipe whose peer never reads, the caller's context is cancelled while the write is blocked, the connection is closed: send returns and, within 2 s, no goroutine of the connection is left blocked on a channel send",
 		Template: `package kmipclient
